@@ -644,7 +644,9 @@ func (e *Extractor) extractSuffixes(re *syntax.Regexp, depth int) *Seq {
 					lit := suffixes.Get(j)
 					lits[j] = NewLiteral(lit.Bytes, false) // Mark as incomplete
 				}
-				return NewSeq(lits...)
+				incomplete := NewSeq(lits...)
+				incomplete.partialCoverage = suffixes.partialCoverage
+				return incomplete
 			}
 
 			// Prepend this literal to all suffixes (cross_reverse)
@@ -663,7 +665,9 @@ func (e *Extractor) extractSuffixes(re *syntax.Regexp, depth int) *Seq {
 				}
 				lits[j] = NewLiteral(newBytes, lit.Complete)
 			}
-			suffixes = NewSeq(lits...)
+			extended := NewSeq(lits...)
+			extended.partialCoverage = suffixes.partialCoverage
+			suffixes = extended
 
 			// Check size limit
 			if suffixes.Len() > e.config.MaxLiterals {
